@@ -160,7 +160,7 @@ class VCSAPI:
         return [
             filepath.strip()
             for status, filepath in status_items
-            if filepath.strip() in required_files or status != "??"
+            if filepath.strip() in required_files or status not in ("??", "?")
         ]
 
     def ls_tags(self) -> typ.List[str]:
